@@ -377,3 +377,117 @@ def feasible_reach(g: CFG, avoid: set[int], stable_preds: tuple[str, ...] = ("is
                         f2["t:" + txt] = True
             stack.append((s, frozenset(f2.items())))
     return out
+
+
+def aliased_store_mutations(func_node: ast.AST, attrs: Iterable[str] | None = None) -> list[tuple[ast.AST, str, str]]:
+    """Mutating method calls / subscript stores / augmented assignments on LOCAL names that may alias
+    (a part of) a store attribute: names bound to `self.<attr>`, `self.<attr>[k]`, `self.<attr>.get(..)`,
+    `.setdefault(..)`, elements of lists that such values were appended to, subscripts / iteration
+    of such names.  `.copy()`, `set(x)`, `list(x)`, `dict(x)`, `sorted(x)`, `frozenset(x)`, comprehensions
+    and binary set operations produce FRESH objects.  Returns (node, local name, store attribute)."""
+    want = set(attrs) if attrs is not None else None
+    alias: dict[str, str] = {}
+
+    def source_attr(v: ast.AST) -> str | None:
+        if isinstance(v, ast.Call):
+            nm = call_name(v)
+            if nm in ("copy", "deepcopy") or (isinstance(v.func, ast.Name) and v.func.id in ("set", "list", "dict", "sorted", "frozenset", "tuple", "len")):
+                return None
+            if nm in ("get", "setdefault", "pop") and isinstance(v.func, ast.Attribute):
+                a = self_attr(v.func.value)
+                if a is not None and (want is None or a in want):
+                    return a
+                if isinstance(v.func.value, ast.Name) and v.func.value.id in alias:
+                    return alias[v.func.value.id]
+            return None
+        if isinstance(v, (ast.ListComp, ast.SetComp, ast.DictComp, ast.GeneratorExp, ast.BinOp, ast.Compare, ast.Constant, ast.JoinedStr)):
+            return None
+        if isinstance(v, ast.IfExp):
+            return source_attr(v.body) or source_attr(v.orelse)
+        if isinstance(v, (ast.Attribute, ast.Subscript)):
+            a = self_attr(v)
+            if a is not None and (want is None or a in want):
+                return a
+            root = v
+            while isinstance(root, (ast.Attribute, ast.Subscript)):
+                root = root.value
+            if isinstance(root, ast.Name) and root.id in alias and isinstance(v, ast.Subscript):
+                return alias[root.id]
+            return None
+        if isinstance(v, ast.Name) and v.id in alias:
+            return alias[v.id]
+        return None
+
+    changed = True
+    rounds = 0
+    while changed and rounds < 6:
+        changed = False
+        rounds += 1
+        for n in walk_no_nested(func_node):
+            if isinstance(n, ast.Assign) and len(n.targets) == 1 and isinstance(n.targets[0], ast.Name):
+                a = source_attr(n.value)
+                if a and alias.get(n.targets[0].id) != a:
+                    alias[n.targets[0].id] = a
+                    changed = True
+            elif isinstance(n, ast.AnnAssign) and isinstance(n.target, ast.Name) and n.value is not None:
+                a = source_attr(n.value)
+                if a and alias.get(n.target.id) != a:
+                    alias[n.target.id] = a
+                    changed = True
+            elif isinstance(n, ast.Call) and call_name(n) in ("append", "add", "extend") and isinstance(n.func, ast.Attribute) and isinstance(n.func.value, ast.Name) and n.args:
+                a = source_attr(n.args[0])
+                if a and alias.get(n.func.value.id) != a:
+                    alias[n.func.value.id] = a  # a local container holding store values
+                    changed = True
+            elif isinstance(n, (ast.For, ast.comprehension)) and isinstance(n.target, ast.Name):
+                a = source_attr(n.iter) if not (isinstance(n.iter, ast.Call) and call_name(n.iter) in ("items", "keys")) else None
+                if isinstance(n.iter, ast.Call) and call_name(n.iter) == "values":
+                    a = source_attr(n.iter.func.value) if isinstance(n.iter.func, ast.Attribute) else None
+                if a and alias.get(n.target.id) != a:
+                    alias[n.target.id] = a
+                    changed = True
+    out: list[tuple[ast.AST, str, str]] = []
+    for n in walk_no_nested(func_node):
+        if isinstance(n, ast.Call) and isinstance(n.func, ast.Attribute) and n.func.attr in MUTATING_METHODS:
+            root = n.func.value
+            while isinstance(root, (ast.Subscript, ast.Attribute)):
+                root = root.value
+            if isinstance(root, ast.Name) and root.id in alias:
+                # appending to a purely local list of store values is not a store mutation
+                if n.func.attr in ("append", "add", "extend") and isinstance(n.func.value, ast.Name) and not _directly_bound_to_store(func_node, n.func.value.id):
+                    continue
+                out.append((n, root.id, alias[root.id]))
+        elif isinstance(n, (ast.Assign, ast.AugAssign, ast.Delete)):
+            tgts = n.targets if isinstance(n, (ast.Assign, ast.Delete)) else [n.target]
+            for t in tgts:
+                if isinstance(t, ast.Subscript):
+                    root = t.value
+                    while isinstance(root, (ast.Subscript, ast.Attribute)):
+                        root = root.value
+                    if isinstance(root, ast.Name) and root.id in alias and _directly_bound_to_store(func_node, root.id):
+                        out.append((n, root.id, alias[root.id]))
+                elif isinstance(n, ast.AugAssign) and isinstance(t, ast.Name) and t.id in alias and isinstance(n.op, (ast.BitOr, ast.BitAnd, ast.Sub, ast.Add)) and _directly_bound_to_store(func_node, t.id):
+                    out.append((n, t.id, alias[t.id]))
+    return out
+
+
+def _directly_bound_to_store(func_node: ast.AST, name: str) -> bool:
+    """the local name is (on some assignment) bound to a store value itself, not to a fresh list of them"""
+    for n in walk_no_nested(func_node):
+        val = None
+        if isinstance(n, ast.Assign) and any(isinstance(t, ast.Name) and t.id == name for t in n.targets):
+            val = n.value
+        elif isinstance(n, ast.AnnAssign) and isinstance(n.target, ast.Name) and n.target.id == name:
+            val = n.value
+        elif isinstance(n, (ast.For, ast.comprehension)) and isinstance(n.target, ast.Name) and n.target.id == name:
+            val = n.iter
+        if val is None:
+            continue
+        if isinstance(val, (ast.List, ast.Set, ast.Dict, ast.ListComp, ast.SetComp, ast.DictComp)):
+            continue
+        if isinstance(val, ast.Call) and isinstance(val.func, ast.Name) and val.func.id in ("list", "set", "dict", "sorted", "tuple", "frozenset"):
+            continue
+        if isinstance(val, ast.Call) and call_name(val) in ("copy", "deepcopy"):
+            continue
+        return True
+    return False
